@@ -307,5 +307,44 @@ def c25(scn, run):
     return None
 
 
-ORACLES = {"C01": c01, "C02": c02, "C03": c03, "C04": c04, "C07": c07, "C09": c09, "C11": c11,
+def c06(scn, run):
+    """a held task never enters preparation unless manually triggered; future holds apply on spawn;
+    hold set is consistent with the pool"""
+    to_hold = set()
+    hold_pt = None
+    for e in _tracked(run["trace"]):
+        k = e["e"]
+        if k == "state":
+            if e["new"][0] == "preparing" and e["old"][0] != "preparing" and e["old"][1] and not e.get("manual"):
+                return f"held task {e['id']} entered job preparation"
+            if e["new"][2] and not e["old"][2] and e["new"][1]:
+                return f"held task {e['id']} was queued"
+        elif k == "submit":
+            pass
+        elif k in ("tick_end", "restarted"):
+            sn = e["snap"]
+            held_ids = {tuple(t["id"]) for t in sn["tasks"] if t["held"]}
+            th = {tuple(x) for x in sn["to_hold"]}
+            if not held_ids <= th:
+                return f"held tasks {sorted(held_ids - th)} missing from the set of held instances"
+            pooled = {tuple(t["id"]) for t in sn["tasks"]}
+            if (th & pooled) - held_ids:
+                return f"instances {sorted((th & pooled) - held_ids)} are in the hold set and in the pool but not held"
+    # commands: after a hold command, a matched future instance must be held when spawned
+    want = set()
+    for e in run["trace"]:
+        if e["e"] == "cmd_hold":
+            want |= {tuple(i) for i in e["ids"]}
+        elif e["e"] == "cmd_release":
+            want -= {tuple(i) for i in e["ids"]}
+        elif e["e"] == "cmd_release_hold_point":
+            want.clear()
+        elif e["e"] == "remove_begin":
+            want.discard(tuple(e["id"]))
+        elif e["e"] == "add" and tuple(e["t"]["id"]) in want and not e["t"]["held"]:
+            return f"{e['t']['id']} was held before it spawned but entered the pool not held"
+    return None
+
+
+ORACLES = {"C06": c06, "C01": c01, "C02": c02, "C03": c03, "C04": c04, "C07": c07, "C09": c09, "C11": c11,
            "C25": c25, "C26": c26}
